@@ -28,15 +28,22 @@ def graph(ctx):
     stub_logging_str(ctx)
     P = ctx.params
     d = new_doc(second_prefix=False)
-    d.entity("ex:e1", {"ex:k": 1})
-    d.activity("ex:a1", TIMES[0])
-    d.agent("ex:ag")
+    relations_first = bool(P.get("relations_first"))   # relations may precede the declaration of their endpoints
+
+    def elements():
+        d.entity("ex:e1", {"ex:k": 1})
+        d.activity("ex:a1", TIMES[0])
+        d.agent("ex:ag")
+
+    if not relations_first:
+        elements()
     variant = ctx.choose("variant", 3)
     if variant == 1:
         d.entity("ex:e1", {"ex:k": ctx.bigint("v")})     # repeated identifier: unified() merges
     if variant == 2:
         d.agent("ex:e1")                                  # another element KIND under the same identifier
     names = NAMES if P["nrel"] < 2 else NAMES[:2] + NAMES[3:4]
+    first_identified = False
     for i in range(P["nrel"]):
         k = P["kinds"][i] if "kinds" in P else REL_KINDS[ctx.choose("kind", len(REL_KINDS))]
         fa = formal(k)
@@ -44,10 +51,26 @@ def graph(ctx):
         has2 = ctx.bool("has_second") if i == 0 else True
         a2 = names[ctx.choose("end2", len(names))] if has2 else None
         args = [a1, a2] + [None] * (len(fa) - 2)
-        identified = ctx.bool("identified") if i == 0 else False
-        add_record(d, k, ("ex:r%d" % i) if identified else None, args, [("ex:w", i)] if identified else None)
+        identified = ctx.bool("identified") if i == 0 else (first_identified and ctx.bool("same_relation_id"))
+        if i == 0:
+            first_identified = identified
+        # a second relation may carry the SAME identifier as the first one (two relation kinds under one identifier)
+        add_record(d, k, "ex:r0" if identified else None, args, [("ex:w", i)] if identified else None)
+    if relations_first:
+        elements()
     ctx.pin_all("names reach networkx (hashing)")
-    u = d.unified()
+    ctx.observe("cfg", P.get("kinds"))
+    if ctx.sym:
+        # every value is a concrete catalogue choice: the conversion itself has no symbolic branch to explore, so
+        # Stage A only enumerates the configurations; the real code runs once per configuration in Stage B
+        ctx.checks += 1
+        return
+    from prov.model import ProvException
+
+    try:
+        u = d.unified()
+    except ProvException:
+        ctx.assume(False)  # two same-kind relations under one identifier that disagree: there is no unified document
     g = pg.prov_to_graph(d)
     declared = {}
     for r in u.get_records(ProvElement):
@@ -87,7 +110,7 @@ def graph(ctx):
     ctx.check(S.records_eq(have, want), "graph_to_prov(prov_to_graph(d)) is not the unified document restricted to elements and two-ended relations: %s"
               % S.first_difference(want, have))
     ctx.check(len(list(back.bundles)) == 0, "graph_to_prov invented bundles")
-    ctx.observe("n", [len(nodes), len(edges), skipped_influence])
+
 
 
 def _shards(tier):
@@ -95,6 +118,8 @@ def _shards(tier):
     for k in REL_KINDS:
         for e in NAMES:
             out.append({"nrel": 1, "kinds": [k], "end1": e})
+        out.append({"nrel": 1, "kinds": [k], "end1": NAMES[0], "relations_first": True})
+        out.append({"nrel": 1, "kinds": [k], "end1": NAMES[3], "relations_first": True})
     pairs = [(2, 3), (8, 8), (13, 4), (17, 14)]
     if tier == "thorough":
         pairs = [(a, b) for a in REL_KINDS for b in REL_KINDS if a <= b]
